@@ -1,4 +1,5 @@
 import OutlineModel.Props.C06
+import OutlineModel.Model.MConn
 /-
 C15 — TCP connection metrics match what happened on the wire.
 
@@ -208,5 +209,94 @@ theorem counters_never_exceed (s : Script) (hraw : c.saltSize + (s.chunks.map (c
     reported once and only after the authentication branch (generated facts). -/
 theorem wiring : Gen.Wiring.tcpOpenedOnceBeforeHandle = true ∧ Gen.Wiring.tcpClosedOnceAfterHandleConnection = true ∧
     Gen.Wiring.tcpAddAuthenticatedOnlyAfterAuth = true := by decide
+
+
+/-! ### the counting wrapper (metrics.MeasureConn), tied by the `mconn` campaign -/
+section MeasuredConn
+open OutlineModel.MConn
+
+theorem run_wr (ops : List MConn.Op) : ∀ s : MConn.St, (MConn.run s ops).wr = s.wr + sentToPeer ops := by
+  induction ops with
+  | nil => intro s; simp [MConn.run, sentToPeer]
+  | cons o os ih =>
+    intro s
+    have h := ih (MConn.step s o)
+    simp only [MConn.run, List.foldl_cons] at h ⊢
+    rw [h]
+    cases o <;> simp [MConn.step, sentToPeer, acceptedIn] <;> omega
+
+theorem copied_le_delivered (steps : List CopyStep) (h : ∀ st ∈ steps, st.2 ≤ st.1) : copied steps ≤ deliveredIn steps := by
+  induction steps with
+  | nil => simp [copied, deliveredIn]
+  | cons st rest ih =>
+    obtain ⟨nr, nw⟩ := st
+    have h1 : nw ≤ nr := h (nr, nw) (List.mem_cons_self)
+    have h2 := ih (fun x hx => h x (List.mem_cons_of_mem _ hx))
+    simp only [copied, deliveredIn]
+    split <;> omega
+
+theorem copied_le_requested (steps : List CopyStep) (h : ∀ st ∈ steps, st.2 ≤ st.1) : copied steps ≤ (steps.map (·.1)).sum := by
+  induction steps with
+  | nil => simp [copied]
+  | cons st rest ih =>
+    obtain ⟨nr, nw⟩ := st
+    have h1 : nw ≤ nr := h (nr, nw) (List.mem_cons_self)
+    have h2 := ih (fun x hx => h x (List.mem_cons_of_mem _ hx))
+    simp only [copied, List.map_cons, List.sum_cons]
+    split <;> omega
+
+/-- the io.Writer contract of the destination of a WriteTo: it accepts at most what it is given -/
+def WritersSane (ops : List MConn.Op) : Prop :=
+  ∀ o ∈ ops, match o with
+    | .writeTo steps => ∀ st ∈ steps, st.2 ≤ st.1
+    | _ => True
+
+theorem run_rd (ops : List MConn.Op) (hs : WritersSane ops) : ∀ s : MConn.St, (MConn.run s ops).rd ≤ s.rd + receivedFromPeer ops := by
+  induction ops with
+  | nil => intro s; simp [MConn.run, receivedFromPeer]
+  | cons o os ih =>
+    intro s
+    have h0 := hs o List.mem_cons_self
+    have h := ih (fun x hx => hs x (List.mem_cons_of_mem _ hx)) (MConn.step s o)
+    simp only [MConn.run, List.foldl_cons] at h ⊢
+    cases o with
+    | read n => simp [MConn.step, receivedFromPeer] at h ⊢; omega
+    | write l a => simp [MConn.step, receivedFromPeer] at h ⊢; omega
+    | writeTo st => simp only at h0; have := copied_le_delivered st h0; simp [MConn.step, receivedFromPeer] at h ⊢; omega
+    | readFrom d st => simp [MConn.step, receivedFromPeer] at h ⊢; omega
+
+/-- **counters_never_run_ahead_of_the_wire**: for EVERY sequence of reads, writes and copies through the
+    counting wrapper, with any short counts and errors of the underlying connection: the write
+    counter equals the bytes the underlying connection actually accepted (never the bytes merely
+    requested), and the read counter never exceeds the bytes it actually delivered. -/
+theorem counters_never_run_ahead_of_the_wire (ops : List MConn.Op) (hs : WritersSane ops) :
+    (MConn.run {} ops).wr = sentToPeer ops ∧ (MConn.run {} ops).rd ≤ receivedFromPeer ops := by
+  have h1 := run_wr ops {}
+  have h2 := run_rd ops hs {}
+  simp at h1 h2
+  exact ⟨h1, h2⟩
+
+/-- what was accepted never exceeds what was requested when the underlying writer keeps the io.Writer contract -/
+theorem sent_le_requested (ops : List MConn.Op)
+    (hw : ∀ o ∈ ops, match o with
+      | .write len acc => acc ≤ len
+      | .readFrom _ steps => ∀ st ∈ steps, st.2 ≤ st.1
+      | _ => True) :
+    sentToPeer ops ≤ requested ops := by
+  induction ops with
+  | nil => simp [sentToPeer, requested]
+  | cons o os ih =>
+    have h0 := hw o List.mem_cons_self
+    have h1 := ih (fun x hx => hw x (List.mem_cons_of_mem _ hx))
+    cases o with
+    | read n => simpa [sentToPeer, requested] using h1
+    | write l a => simp only at h0; simp [sentToPeer, requested]; omega
+    | writeTo st => simpa [sentToPeer, requested] using h1
+    | readFrom d st => simp only at h0; have := copied_le_requested st h0; simp [sentToPeer, requested, acceptedIn]; omega
+
+/-- non-vacuity: a write cut short (1000 requested, 500 accepted) and a copy whose second step fails -/
+example : (MConn.run {} [.write 1000 500, .readFrom false [(1000, 1000), (1000, 500), (1000, 1000)], .read 7]) = { rd := 7, wr := 2000 } := by decide
+example : requested [.write 1000 500, .readFrom false [(1000, 1000), (1000, 500), (1000, 1000)]] = 4000 := by decide
+end MeasuredConn
 
 end OutlineModel.Props.C15
